@@ -58,6 +58,8 @@ pub static mut FRAG_PENDING: [[bool; MAX_FRAG]; MAX_REQ] = [[false; MAX_FRAG]; M
 /// after the fragments: true = transport error, false = clean end of body
 pub static mut END_ERR: [bool; MAX_REQ] = [false; MAX_REQ];
 pub static mut CLONABLE: bool = true;
+/// what `Response::content_length()` reports: server-controlled, set (usually symbolic) by the harness
+pub static mut CONTENT_LENGTH: Option<u64> = None;
 pub static mut MISBEHAVE: bool = false;
 // ---- log (output) ---------------------------------------------------------
 pub static mut N_REQUESTS: usize = 0;
@@ -212,6 +214,36 @@ impl Response {
     }
     pub fn bytes_stream(self) -> BodyStream {
         BodyStream(self)
+    }
+    /// The Content-Length header of the reply: whatever the server chose to declare.
+    pub fn content_length(&self) -> Option<u64> {
+        unsafe { CONTENT_LENGTH }
+    }
+    /// Next body fragment (reqwest's `Response::chunk`).
+    pub async fn chunk(&mut self) -> Result<Option<Bytes>, Error> {
+        // same script as bytes_stream(); a borrowed view of this response
+        let mut tmp = BodyStream(Response {
+            first: self.first,
+            last: self.last,
+            frags: self.frags,
+            frag_pending: self.frag_pending,
+            end_err: self.end_err,
+            misbehave: self.misbehave,
+            frag: self.frag,
+            sent: self.sent,
+            pended: self.pended,
+        });
+        let r = tmp.next_frag(false);
+        self.frag = tmp.0.frag;
+        self.sent = tmp.0.sent;
+        self.end_err = tmp.0.end_err;
+        self.pended = tmp.0.pended;
+        match r {
+            Poll::Ready(Some(Ok(b))) => Ok(Some(b)),
+            Poll::Ready(Some(Err(e))) => Err(e),
+            Poll::Ready(None) => Ok(None),
+            Poll::Pending => unreachable!(),
+        }
     }
     /// Whole body at once (used by `HttpRangeRequest::single`).
     pub async fn bytes(self) -> Result<Bytes, Error> {
